@@ -17,13 +17,27 @@ MANIFEST = dict(
           "f(x) - f(z) <= t + t|x - z| for all z; under sharpness RQB/FPBA's `converged` gives f_ret - f* <= 2 eps sqrt(n) "
           "(1 + |x_ret - x*|); the two-row closed form of solve() is the simplex minimiser; the 1-D ellipsoid loop (any "
           "budget) returns within 10 eps when it reports converged; the n-D ellipsoid certificate f(c) - f* <= sqrt(g'Hg). "
+          "Extension LOOP: csearch_t::search as written (trial loop, tL/tR bracket, interpolation / extrapolation, the m1..m4 tests, "
+          "budget guard, every assigned status and the reset to max_iters of repo 31bf93f), proximity_t and the Nesterov sequences, and the "
+          "outer loops of RQB / FPBA are in the model over an ARBITRARY oracle (QP, function, bundle operations): theorems for every "
+          "history -- termination and evaluation overshoot (< 1 evaluation for RQB, < 2 for FPBA beyond max_evals), status soundness "
+          "(an assigned status is the verdict of the tests on the last trial; a budget exit hands over max_iters and leaves state, bundle "
+          "and miu untouched; the pre-repair stale-status behaviour is a refuted statement with its witness history), RQB monotonicity "
+          "under the m1 test, FPBA = best seen, the bracket invariant (new trial strictly inside), miu0 in its range / miu positive (range "
+          "not kept: refuted), lambda >= 1 and momentum coefficients in [0,1). The real csearch_t / proximity_t / nesterov objects of the "
+          "mirrored loops are observed at every evaluation and replayed by the extracted model. "
           "The integer / boolean decisions (aggregation trigger, capacities, csearch convergence, status hand-over, "
           "solver_t::done) are regenerated from the source on every run. The extracted model replays every operation of "
           "random op sequences on real bundle_t objects and of RQB/FPBA loops mirrored on the public classes (which must "
           "reproduce the real solvers bit for bit); the real solvers are searched with the property's inequalities against "
           "analytically known minimisers. The n-D deep-cut update and `ellipsoid always converges for n <= 6` are "
           "searched, not proved."),
-    note=("Coq kernel (no axioms); translator (20 kernels); extraction with ExtrOcamlZBigInt (Zarith); harness against the "
+    note=("Coq kernel (no axioms); translator (45 kernels, 23 of them the control flow of csearch.cpp / rqb.cpp / fpba.cpp: float comparisons are "
+          "atomised into named booleans, so a changed operand breaks the anchor); stage LOOP observes the operands of the curve-search tests "
+          "from the real bundle inside the function-evaluation callback (private members of csearch_t / proximity_t / nesterov_sequence_t "
+          "through `#define private public`), gy.(y-x) and s.(y-x) are recomputed by the harness; the outer loops are the harness' mirror "
+          "(bit-identical to the real solvers on every run); the square root of the Nesterov update is a witness checked to 1e-15; "
+          "extraction with ExtrOcamlZBigInt (Zarith); harness against the "
           "library built from the working tree (private members of bundle_t read through `#define private public`); "
           "float rounding is outside the theorems (compared within 1e-9 of the summed terms); the QP solver and "
           "nth_element are oracles of the model (their answers are taken from the run and checked: simplex, subsequence)."),
@@ -38,7 +52,7 @@ FP_DELETE_LARGEST = "bundle_t::delete_largest threshold index (size reaches capa
 # second genuine defect (known finding): a far curve-search trial point (|f| ~ 2^56) rounds the null-step linearisation error by
 # ulp(f) >> tolerance; the harness prints such certificate / converged-not-optimal failures as KFAIL (narrow rule, see the harness)
 FP_FAR_TRIAL = "C03-false-convergence-by-cancellation-at-far-trial-point"
-DRIVER_PREFIXES = ("B ", "E1 ", "D ", "CS ", "ELL ")
+DRIVER_PREFIXES = ("B ", "E1 ", "D ", "CS ", "ELL ", "LI ", "PX ", "PX0 ", "NS ")
 
 
 def _build_driver():
@@ -234,7 +248,7 @@ def run(tier, replay=None):
         for i, l in enumerate(first[:3]):
             toks = l.split()
             cid = toks[2] if len(toks) > 2 else ""
-            ok_id = bool(re.match(r"^[SMRE]\d+$", cid))
+            ok_id = bool(re.match(r"^[SMREL]\d+$", cid))
             # a disagreement on the linearisation errors / rows / stopping decisions is a concrete operation on which the
             # implementation leaves the behaviour the theorems are about
             pf = l.startswith("PROPFAIL")
@@ -246,10 +260,12 @@ def run(tier, replay=None):
                         no_input=not ok_id)
     vlib.handle_coq_failure(r, cres)
     vlib.proof_coverage(r, cres, "make -C coq theories/Properties_C03.vo && coqc theories/Properties_C03.v (Print Assumptions)",
-                        ["tools/translate.py (20 kernels of bundle.cpp/csearch.cpp/rqb.cpp/fpba.cpp/ellipsoid.cpp/solver.cpp)",
+                        ["tools/translate.py (45 kernels of bundle.cpp/csearch.cpp/rqb.cpp/fpba.cpp/ellipsoid.cpp/solver.cpp)",
                          "extraction: ExtrOcamlBasic + ExtrOcamlZBigInt (Z, positive -> Zarith)",
                          "ocaml/c03_driver.ml, harness/c03_bundle.cpp (reads bundle_t's private members), g++ -O2",
-                         "the harness' mirrored RQB/FPBA loops (checked bit-for-bit against the real solvers on every run)"])
+                         "the harness' mirrored RQB/FPBA loops (checked bit-for-bit against the real solvers on every run)",
+                         "stage LOOP: the evaluation callback that reads t / miu / the operands of the m1..m4 tests from the real csearch_t, bundle_t and "
+                         "proximity_t objects; decisions within 1e-12 (relative) of their threshold are not compared (loop_ambiguous_calls)"])
     cov = r.coverage
     dk = _kv(done[0]) if done else {}
     hist = {}
@@ -288,6 +304,22 @@ def run(tier, replay=None):
     cov["ellipsoid_membership_checked_exactly"] = int(mk.get("ellipsoid_membership_checked", 0))
     cov["ellipsoid_membership_worst"] = {"harness_long_double_all_events": dk.get("ell_max_membership"), "driver_exact_sampled": mk.get("ellipsoid_membership_worst")}
     cov["ellipsoid_steps_ill_conditioned_skipped"] = int(mk.get("amb_elln", 0))
+    # stage LOOP
+    cov["loop_outer_iterations_observed"] = int(dk.get("loop_iters", 0))
+    cov["loop_search_passes_observed"] = int(dk.get("loop_passes", 0))
+    cov["loop_direct_oracle_checks"] = int(dk.get("loop_oracles", 0))
+    cov["loop_budget_exits_inside_search"] = int(dk.get("stale_exits", 0))
+    cov["loop_search_calls_replayed"] = int(mk.get("loop_calls", 0))
+    cov["loop_search_passes_replayed"] = int(mk.get("loop_passes", 0))
+    cov["loop_outer_iterations_replayed"] = int(mk.get("loop_iters", 0))
+    cov["loop_budget_exits_replayed"] = int(mk.get("loop_budget_exits", 0))
+    cov["loop_long_calls_replayed_pass_by_pass_only"] = int(mk.get("loop_long_calls_pass_only", 0))
+    cov["loop_ambiguous_calls"] = int(mk.get("loop_amb", 0))
+    cov["loop_returned_status_histogram"] = mk.get("loop_status_hist")
+    cov["proximity_updates_replayed"] = int(mk.get("px_checked", 0))
+    cov["proximity_updates_ill_conditioned_skipped"] = int(mk.get("px_amb", 0))
+    cov["nesterov_updates_replayed"] = int(mk.get("ns_checked", 0))
+    cov["low_budget_runs"] = len([l for l in lines if l.startswith("RUN L")])
     cov["known_finding_hits"] = {FP_FAR_TRIAL: len(seen_k), "C03-delete-largest-leaves-bundle-full": len(pguards) + len(guards)}
     cov["far_trial_point_probe"] = fdone[0] if fdone else None
     cov["histogram"] = hist
@@ -308,7 +340,10 @@ def run(tier, replay=None):
         "floating-point rounding of all formulas (compared within 1e-9 of the summed terms)",
         "the interior-point QP answer is in the simplex (measured on every solve: qp_answer_max_simplex_deviation)",
         "multipliers below epsilon0 are exactly zero when the aggregate is formed (measured: aggregate_max_abs_sum_alpha_minus_1)",
-        "curve search / proximity updates / Nesterov sequence terminate and make progress (not part of the certificate)"]
+        "curve search / RQB / FPBA: termination within the budget, statuses, monotonicity, bracket are theorems over exact rationals for every "
+        "oracle; that the floating-point decisions follow them is searched (replay of every observed pass, direct oracles), as is progress "
+        "(number of passes of one search call: no bound other than the budget exists)",
+        "proximity / Nesterov: rounding of the updates (compared within 1e-6 / 1e-12 relative), the square root as a witness"]
     cov["excluded_inputs"] = ([] if small else ["bundle::max_size in 2..4: delete_largest reads its threshold at index `count` instead of size()-count; "
                                                 "with max_size 3 or 4 the bundle reaches its capacity and append writes behind the buffers "
                                                 "(heap-buffer-overflow under ASan, see notes/C03.md)"]) + \
